@@ -13,5 +13,5 @@ s = open(p).read()
 assert s.count(old) == 1, "pattern occurs %d times" % s.count(old)
 open(p, "w").write(s.replace(old, new))
 PY
-(cd /verif && VERIF_REPO=$wt /venv/bin/python run.py "$@" 2>&1 | grep -v "^Falsifying\|^    \|^)" | cut -c1-400 | tail -6) || true
+(cd /verif && VERIF_EVIDENCE_DIR=/var/tmp/verif-scratch-evidence VERIF_REPLAY_DIR=/var/tmp/verif-scratch-replay VERIF_REPO=$wt /venv/bin/python run.py "$@" 2>&1 | grep -v "^Falsifying\|^    \|^)" | cut -c1-400 | tail -6) || true
 git -C /repo worktree remove --force $wt
